@@ -8,8 +8,11 @@ git -C /repo worktree remove --force $wt 2>/dev/null
 git -C /repo worktree add -q --detach $wt HEAD || exit 2
 for id in "$@"; do
   pid=${id%%_*}
-  (cd $wt && git checkout -q -- . && git apply /verif/seeded/$id/patch.diff) || { echo "$id APPLY-FAIL" > /tmp/sweep-$id.txt; continue; }
+  base=$(python3 -c "import json,sys;print(json.load(open('/verif/seeded/$id/meta.json')).get('base',''))" 2>/dev/null)
+  if [ -n "$base" ]; then (cd $wt && git checkout -q -- . && git checkout -q --detach $base); fi
+  (cd $wt && git checkout -q -- . && git apply /verif/seeded/$id/patch.diff) || { echo "$id APPLY-FAIL" > /tmp/sweep-$id.txt; (cd $wt && git checkout -q --detach $(git -C /repo rev-parse HEAD)); continue; }
   (cd /verif && VERIF_REPO=$wt ./check $pid --tier $tier 2>/dev/null | grep -E '^(VIOLATION|KNOWN|MACHINERY|C[0-9]+ )' | sed 's/replay=[^ ]*//' | cut -c1-200 | sort | uniq -c | sort -rn | head -5) > /tmp/sweep-$id.txt
   (cd $wt && git checkout -q -- .)
+  if [ -n "$base" ]; then (cd $wt && git checkout -q --detach $(git -C /repo rev-parse HEAD)); fi
 done
 git -C /repo worktree remove --force $wt
